@@ -915,7 +915,8 @@ def _conformance(case, ctx, mk, paths):
         dev = abs(a - b) / max(abs(a), abs(b), 1e-3)
         worst = max(worst, dev)
         n += 1
-    return {"points": 1, "elements": n, "max_rel_dev": worst, "ok": worst < 1e-7}
+    tol = getattr(case, "conformance_tol", 1e-7)
+    return {"points": 1, "elements": n, "max_rel_dev": worst, "tol": tol, "ok": worst < tol}
 
 
 def _check_den_bases(ctx, res, limit=40):
